@@ -142,14 +142,18 @@ def check_prototypes():
     # struct layouts
     mine = _structs(capi)
     theirs = _structs(util)
-    for k in KINDS:
-        theirs.update(_structs(texts[k], k))
-    for name in ("mgr_t", "fn_t", "fn_pair_t", "var_no_range_t", "var_no_bool_pair_t", "duplicate_var_name_result_t",
+    for name in ("var_no_range_t", "var_no_bool_pair_t", "duplicate_var_name_result_t",
                  "assignment_t", "str_t", "string_t", "error_t", "natural_t", "dddmp_export_settings_t", "opt",
                  "size_hint_t", "iter", "named"):
         n += 1
         if name not in theirs or mine.get(name) != theirs[name]:
             bad.append("struct %s: declared %s, defined %s" % (name, mine.get(name), theirs.get(name)))
+    for k in KINDS:
+        theirs = _structs(texts[k], k)
+        for name in ("mgr_t", "fn_t", "fn_pair_t"):
+            n += 1
+            if name not in theirs or mine.get(name) != theirs[name]:
+                bad.append("struct %s (%s): declared %s, defined %s" % (name, k, mine.get(name), theirs.get(name)))
     if bad:
         raise vlib.ToolError("ffi-shim/src/capi.rs does not match the ffi sources:\n  " + "\n  ".join(bad[:20]))
     return n
